@@ -1148,6 +1148,18 @@ func (l *LineWrapper) wrapNextLine(config lineConfig) (done bool) {
 				return false
 			}
 		}
+		if !config.truncating && !l.scratch.hasBest() {
+			// No grapheme boundary was usable up to the UAX#14 break option (it need not be
+			// a grapheme boundary itself, or the boundaries lie inside glyph clusters) and the
+			// option does not fit: use it anyway so that the line contains something.
+			l.restore()
+			switch result, candidateRun := l.processBreakOption(option, config); result {
+			case breakInvalid:
+				l.restore()
+			default:
+				l.scratch.markCandidateBest(candidateRun)
+			}
+		}
 		return false
 	}
 	return true
